@@ -315,6 +315,92 @@ OPS = {
 }
 
 
+def _b(x):
+    return "1" if x else "0"
+
+
+def op_dadd(t):
+    return sh_dur(rd_dur(t) + rd_dur(t))
+
+
+def op_dsub(t):
+    a = rd_dur(t)
+    return sh_dur(a - rd_dur(t))
+
+
+def op_dmul(t):
+    a = rd_dur(t)
+    n = t.z()
+    r1, r2 = a * n, n * a
+    if sh_dur(r1) != sh_dur(r2):
+        return "INCOHERENT d*n=%s n*d=%s" % (sh_dur(r1), sh_dur(r2))
+    return sh_dur(r1)
+
+
+def op_dfloordiv(t):
+    a = rd_dur(t)
+    return sh_dur(a // t.z())
+
+
+def op_dabs(t):
+    return sh_dur(abs(rd_dur(t)))
+
+
+def op_deq(t):
+    a, b = rd_dur(t), rd_dur(t)
+    eq, ne = a == b, a != b
+    if eq == ne:
+        return "INCOHERENT eq=%s ne=%s" % (eq, ne)
+    return _b(eq)
+
+
+def op_dcmp(t):
+    _md(t)
+    a, b = rd_dur(t), rd_dur(t)
+    return " ".join(_b(x) for x in (a < b, a <= b, a > b, a >= b))
+
+
+def op_dhash(t):
+    a, b = rd_dur(t), rd_dur(t)
+    return _b(hash(a) == hash(b))
+
+
+def op_dbool(t):
+    return _b(bool(rd_dur(t)))
+
+
+def op_dexact(t):
+    return _b(rd_dur(t).is_exact())
+
+
+def op_dsecs(t):
+    _md(t)
+    return sh_q(rd_dur(t).get_seconds())
+
+
+def op_ddays(t):
+    _md(t)
+    d, s = rd_dur(t).get_days_and_seconds()
+    return "%s %s" % (sh_q(d), sh_q(s))
+
+
+def op_dtodays(t):
+    return sh_dur(rd_dur(t).to_days())
+
+
+def op_dtoweeks(t):
+    return sh_dur(rd_dur(t).to_weeks())
+
+
+OPS.update({
+    "dadd": op_dadd, "dsub": op_dsub, "dmul": op_dmul,
+    "dfloordiv": op_dfloordiv, "dabs": op_dabs, "deq": op_deq,
+    "dcmp": op_dcmp, "dhash": op_dhash, "dbool": op_dbool,
+    "dexact": op_dexact, "dsecs": op_dsecs, "ddays": op_ddays,
+    "dtodays": op_dtodays, "dtoweeks": op_dtoweeks,
+})
+
+
 def eval_line(line, timeout=10):
     toks = line.split()
     if not toks:
